@@ -188,6 +188,7 @@ class PureEval:
                     "frozenset": frozenset, "map": lambda f, xs: tuple(f(x) for x in xs), "isinstance": isinstance, "float": float, "int": int,
                     "bool": bool, "complex": complex, "bytes": bytes, "len": len, "abs": abs, "any": any, "all": all, "hash": hash,
                     "range": range, "enumerate": lambda xs, start=0: tuple(enumerate(xs, start)), "reversed": lambda xs: tuple(reversed(xs)),
+                    "Counter": __import__("collections").Counter, "sorted": sorted, "list": list, "set": set, "dict": dict, "sum": sum,
                     "min": min, "max": max}
         self.lib.update(extra or {})
         self.depth = 0
@@ -371,6 +372,11 @@ class PureEval:
             return _BIN[type(node.op)](self.ev(node.left, env), self.ev(node.right, env))
         if isinstance(node, ast.IfExp):
             return self.ev(node.body, env) if self.ev(node.test, env) else self.ev(node.orelse, env)
+        if isinstance(node, ast.Call) and isinstance(node.func, ast.Attribute) and node.func.attr in ("items", "keys", "values", "get", "most_common", "count", "index"):
+            base = self.ev(node.func.value, env)
+            if isinstance(base, (dict, tuple, list, str)) and hasattr(base, node.func.attr):
+                r = getattr(base, node.func.attr)(*[self.ev(a, env) for a in node.args])
+                return tuple(r) if node.func.attr in ("items", "keys", "values") else r
         if isinstance(node, ast.Call):
             f = self.ev(node.func, env)
             if callable(f):
